@@ -1022,7 +1022,14 @@ impl<'input> Lexer<'input> {
                             s if s.starts_with('"') => {
                                 let r = Lexer::new(&self.input[pos + 1..])
                                     .string_literal(0)
-                                    .map_err(|e| e.offset_by(pos + 1))?;
+                                    .map_err(|e| match e {
+                                        // `start` of this error is the opening quote, which
+                                        // sits one byte before the slice handed to the lexer
+                                        Error::StringLiteral { .. } => {
+                                            Error::StringLiteral { start: pos }
+                                        }
+                                        e => e.offset_by(pos + 1),
+                                    })?;
                                 match literal_check(r, &mut chars) {
                                     Ok(ch) => ch,
                                     Err(()) => {
